@@ -24,7 +24,7 @@ ASSUMPTIONS = ['stale messages are re-sent copies of earlier delivered '
                'messages (same text, old submit number)']
 MIN = {'c10.received': 1500, 'c10.stale_received': 20,
        'c10.backward_messages': 20, 'c10.final_checks': 200}
-NCASES = {'quick': 300, 'thorough': 4000}
+NCASES = {'quick': 1000, 'thorough': 12000}
 
 
 def ncases(tier):
